@@ -1,7 +1,7 @@
 """C02 try/undo, try/stop, preempt and ?? follow their time-travel semantics.
 Decided by Refine.tla against HiDSem (explicit backtracking over a choice stack), with TryBalanced on."""
 import time
-from hv import rt, fam_tt, families
+from hv import rt, fam_tt, families, tt_mc, common
 
 PROP = 'C02'
 
@@ -22,9 +22,14 @@ def main(tier, seed):
     items += fam_tt.template_family(seed, tier)
     items += fam_tt.random_tt(seed, 30 if quick else 400)
     items += families.examples(names={'max', 'factor', 'mergesort', 'optional_max', 'ouroboros'}, s=120)
+    # the oracle itself: HiDSem's backtracking against the declarative semantics of TimeTravel.tla
+    mc, nprog = tt_mc.run(2 if quick else 3, tier, timeout=900)
+    if not mc.ok:
+        raise common.Machinery('TimeTravel.tla model check failed: %s' % (mc.errors + mc.violated)[:3])
     return rt.standard(PROP, tier, seed, items,
                        'enumerated time-travel core (all try bodies up to a node bound over out/set/defeat/truth_is_defeat/'
                        'preempt/if/calls of plain, preemptive and recursive defeat functions; both handlers; histories of two '
                        '(thorough: three) consecutive tries); templates (exits from a try in a loop, return from try, preempt in '
                        'recursive defeat functions, ?? in every position, truth_is_defeat lowerings, the halting example, try in a '
-                       'handler); seeded random time-travel programs; shipped examples', t0)
+                       'handler); seeded random time-travel programs; shipped examples', t0,
+                       extra_cov={'oracle_model_check': {'spec': 'TimeTravel.tla TTAgree', 'programs': nprog, 'states': mc.distinct}})
